@@ -76,6 +76,9 @@ def units(tier):
         out.append((((a, "req"), (b, "dflt"), (c, "req")), "default", "kwonly"))
     out.append(((), "default", "mixin"))
     out.append(((), "default", "plain"))
+    # failures NESTED below the field that is reported: a self-referential class corrupted 1..3 levels down, a bad element of a list of unions
+    for kind in ("mixin", "plain"):
+        out.append((("nested",), "default", kind))
     return out
 
 
@@ -285,8 +288,62 @@ def _swallow_facts(desc, d, ctx, got):
     return facts
 
 
+def run_nested(unit):
+    """The culprit reported is the TOP-LEVEL field, its field_value is the input value of that field, the holder is the class called."""
+    from mashumaro.codecs.basic import BasicDecoder
+    from mashumaro.exceptions import InvalidFieldValue
+    _, _, kind = unit
+    res = core.UnitResult()
+    base = "(DataClassDictMixin)" if kind == "mixin" else ""
+    with space.Ctx() as ctx:
+        ctx.run(f"@dataclass\nclass Node{base}:\n    v: int\n    kids: List['Node'] = field(default_factory=list)\n"
+                f"    nxt: Optional['Node'] = None\n    tags: List[typing.Union[int, float]] = field(default_factory=list)\n"
+                f"    by: Dict[str, 'Node'] = field(default_factory=dict)\n")
+        Node = ctx.ns["Node"]
+        fn = Node.from_dict if kind == "mixin" else BasicDecoder(Node).decode
+
+        def chain(path, bad):
+            """a document whose node at `path` (list of 'kids' / 'nxt' / 'by' steps) is corrupted by `bad`"""
+            node = bad
+            for step in reversed(path):
+                node = {"v": 1, step: [node] if step == "kids" else ({"k": node} if step == "by" else node)}
+            return node
+        cases = []
+        for depth in (1, 2, 3):
+            for steps in itertools.product(("kids", "nxt", "by"), repeat=depth):
+                for bad in ({"v": "x"}, {}, {"v": 1, "tags": [1, 2.5, "x"]}, 5):
+                    cases.append((steps, chain(list(steps), bad)))
+        cases.append((("tags",), {"v": 1, "tags": [1, 2.5, "x"]}))
+        for steps, d in cases:
+            res.cases += 1
+            res.transitions += 1
+            res.nontrivial += 1
+            top = steps[0]
+            before = copy.deepcopy(d)
+            try:
+                r = fn(d)
+                got = ("instance", r)
+            except InvalidFieldValue as e:
+                got = ("InvalidFieldValue", e.field_name, e.field_value, e.holder_class)
+            except Exception as e:   # noqa: BLE001
+                got = (type(e).__name__, str(e)[:100])
+            ok = (got[0] == "InvalidFieldValue" and got[1] == top and (got[2] is d[top] or ref.same(got[2], before[top])) and got[3] is Node
+                  and ref.same(d, before))
+            if not ok:
+                clause = "wrong-field-value" if got[0] == "InvalidFieldValue" and got[1] == top else ("wrong-culprit" if got[0] == "InvalidFieldValue" else "exception-type")
+                res.violation(f"{clause}|nested|{kind}|{steps}", clause, got[0],
+                              dict(unit=unit, label=("nested", kind, list(steps)), facts=dict(scenario="nested")),
+                              f"input={before!r:.200} expected InvalidFieldValue({top!r}, field_value=input[{top!r}], holder=Node) got={got!r:.250}")
+            else:
+                res.outcomes["InvalidFieldValue"] += 1
+    res.states += 1
+    return res
+
+
 def run_unit(unit, only=None):
     from mashumaro.codecs.basic import BasicDecoder
+    if unit[0] == ("nested",):
+        return run_nested(unit)
     lay, cfgname, kind = unit
     res = core.UnitResult()
     cfg = dict(CONFIGS[cfgname])
@@ -368,6 +425,8 @@ def run_unit(unit, only=None):
 def replay(case):
     u = core.detuple(case["unit"])
     label = core.detuple(case["label"])
+    if label[0] == "nested":
+        return [v for v in run_nested((("nested",), u[1], u[2])).violations if tuple(v["case"]["label"][2]) == tuple(label[2])]
     unit = (tuple(u[0]), u[1], u[2])
     if label[0] in ("build", "tag"):
         return [v for v in run_unit(unit).violations if v["case"]["label"][0] == label[0]]
